@@ -188,6 +188,25 @@ def whole_query_cases(backend):
     fk.update({"metadata_type": ckind_name(backend)})
     fk.update({"element_pointer": False} if backend == "atlas" else {"link_libraries": ["libX"]})
     cases.append(("md-foreign-backend-key", f"MetaData(ds, {fk!r}).Select(lambda e: {c}.Count())"))
+    if backend == "atlas":
+        def js(name, script, deps):
+            return {"metadata_type": "add_job_script", "name": name, "script": script, "depends_on": deps}
+        tail = f".Select(lambda e: {c}.Count())"
+        def chain(*mds):
+            src = "ds"
+            for m in mds:
+                src = f"MetaData({src}, {m!r})"
+            return src + tail
+        cases += [
+            ("jobscript-unknown-dependency", chain(js("a", ["# a"], ["nope"]))),
+            ("jobscript-unknown-dependency-on-first-duplicate", chain(js("a", ["# a"], ["nope"]), js("a", ["# a"], []))),
+            ("jobscript-unknown-dependency-on-second-duplicate", chain(js("a", ["# a"], []), js("a", ["# a"], ["nope"]))),
+            ("jobscript-unknown-dependency-on-middle-duplicate", chain(js("a", ["# a"], []), js("a", ["# a"], ["nope"]), js("a", ["# a"], []))),
+            ("jobscript-cycle", chain(js("a", ["# a"], ["b"]), js("b", ["# b"], ["a"]))),
+            ("jobscript-cycle-through-duplicate", chain(js("a", ["# a"], []), js("b", ["# b"], ["a"]), js("a", ["# a"], ["b"]))),
+            ("jobscript-same-name-other-script", chain(js("a", ["# a"], []), js("a", ["# other"], []))),
+            ("jobscript-self-dependency", chain(js("a", ["# a"], ["a"]))),
+        ]
     cases.append(("md-inject-unknown-field", f"MetaData(ds, {{'metadata_type': 'inject_code', 'name': 'b', 'no_such_field': ['x']}}).Select(lambda e: {c}.Count())"))
     return cases
 
